@@ -98,9 +98,19 @@ def compileE : E → CM Opd
     place lend
     pure (.v t)
   | .notE e => do
+    -- `not e`: truthiness of the operand (a decision if it is symbolic), result a constant
     let o ← compileE e
     let t ← fresh
-    emit (.notI t o)
+    let lt ← newLabel
+    let lf ← newLabel
+    let lend ← newLabel
+    emit (.br o lt lf)
+    place lt
+    emit (.mov t (.c Cst.ff))
+    emit (.jmp lend)
+    place lf
+    emit (.mov t (.c Cst.tt))
+    place lend
     pure (.v t)
   | .inT x vals => do
     let t ← fresh
